@@ -404,7 +404,18 @@ def run_history(ctx, ops, nx, ny, cplx, rng, label, reuse=0.35, p_byref=0.75):
                 except Exception as e:
                     bad = True
                     det = dict(det, exc=repr(e)[:200])
-                if bad:
+                # get_all_data documents its keys as TYPE + "_" + str(TAG): at pathway resolution two tags of one type with the same
+                # string form (1 and '1') cannot both be represented - the dictionary is not one of the views the statement is about
+                collide = False
+                if getattr(tw, "storage_resolution", None) == "pathways":
+                    seen_ = {}
+                    for (lv_, dt_, tg_, _d) in sh.adds:
+                        if lv_ == "pathways":
+                            seen_.setdefault((dt_, str(tg_)), set()).add(tg_)
+                    collide = any(len(v_) > 1 for v_ in seen_.values())
+                if collide:
+                    ctx.event("get_all_data_not_judged_tags_with_equal_string_form")
+                elif bad:
                     ctx.require("total==sum-of-additions", False, dict(det, why="get_all_data failed / wrong shapes"))
                 else:
                     ctx.check("total==sum-of-additions", float(numpy.max(numpy.abs(tot - sh.total()))),
